@@ -25,5 +25,6 @@ INVARIANT BytesParserKeepsGt
 INVARIANT BytesParserKeepsEmpty
 INVARIANT HasGtCovered
 INVARIANT BlankEdgesAreLost
+INVARIANT OrderFamilyUnsorted
 INVARIANT LayoutsSound
 INVARIANT CanonIsALayout
